@@ -312,6 +312,29 @@ def main():
     b = fs3.duck_conn.cursor().execute("select * from DB1.S1.C06_T order by all").fetchall()
     if a != b or (conn2.database, conn2.schema) != (conn3.database, conn3.schema):
         report(f"reading description changed data or session: {a} vs {b}", {})
+    # description of a query over objects only THIS session can see: DDL not yet committed, temporary tables
+    fs7, conn7 = setup_conn()
+    c7 = conn7.cursor()
+    dict7 = conn7.cursor(fsutil.dict_cursor_class())
+    for step_sqls, q in [(["begin", "alter table c06_t add column tx_note varchar(5)"], "select * from c06_t"),
+                         (["create table c06_tx_new (a int, b varchar(7), c float)", "insert into c06_tx_new values (1, 'x', 1.5)"], "select * from c06_tx_new"),
+                         (["rollback", "create temporary table c06_tmp (x int, y varchar(3), z date)", "insert into c06_tmp values (1, 'a', '2020-01-02')"], "select * from c06_tmp")]:
+        for s_ in step_sqls:
+            c7.execute(s_)
+        c7.execute(q)
+        row = c7.fetchone()
+        ck.cov["evaluations"] += 1
+        try:
+            d = c7.description
+            names = [x.name for x in d]
+            d2 = [x.name for x in conn7.cursor().describe(q)]
+        except Exception as e:  # noqa: BLE001
+            report(f"after {step_sqls} the query `{q}` ran (row {row}) but its description raises {type(e).__name__}: {str(e)[:120]}", {"statements": step_sqls + [q]})
+            continue
+        keys = list(dict7.execute(q).fetchone().keys())
+        if not (names == keys == d2) or len(names) != len(row):
+            report(f"after {step_sqls}: description of `{q}` names {names}, DictCursor keys {keys}, describe() {d2}, row width {len(row)}", {"statements": step_sqls + [q]})
+    fs7.duck_conn.close()
     # known findings: statements after which description is unavailable / wrong
     probes = [
         ("C06-description-unavailable", ["begin", "use schema s1", "truncate table c06_t"]),
